@@ -54,9 +54,11 @@ def extract_job(args):
     return {"op": "extract", "root": root, "U": U, "S": S, "rulekeys": [], "check": checked}
 
 
-def export(run: Run, consts, label):
+def export(run: Run, consts, label, all_buckets=False):
     wd = run.wd
     cfg = tlc.read_spec("MC_ForestExtract.cfg").replace("NC = 2 MaxShift = 1 MaxArity = 2 MaxKeys = 2", consts)
+    if all_buckets:  # theorem + implementation-shaped Minimize over every bucket assignment, no export
+        cfg = cfg.replace('EmitMode = "pumping" AllBuckets = FALSE', 'EmitMode = "none" AllBuckets = TRUE')
     tlc.write_module(wd, "MC_ForestExtract", tlc.read_spec("MC_ForestExtract.tla"), cfg)
     r = tlc.require_ok(tlc.run_tlc(wd, "MC_ForestExtract", workers=16, timeout=3000, heap="12g"), "MC_ForestExtract " + label)
     run.add_tlc(r, "MC_ForestExtract " + label)
@@ -146,6 +148,10 @@ def run(tier: str, seed: int) -> int:
     else:
         u3 = export(run_, "NC = 3 MaxShift = 1 MaxArity = 1 MaxKeys = 3", "3 classes, arity<=1, <=3 keys")
         universes += rnd.sample(u3, min(len(u3), 1500))
+    # the implementation-shaped Minimize (transcription of _minimize) meets the post-conditions for every bucket assignment
+    export(run_, "NC = 2 MaxShift = 1 MaxArity = 2 MaxKeys = 2", "Minimize transcription, all buckets, 2 classes, <=2 keys", all_buckets=True)
+    if tier == "thorough":
+        export(run_, "NC = 3 MaxShift = 1 MaxArity = 1 MaxKeys = 3", "Minimize transcription, all buckets, 3 classes, arity<=1, <=3 keys", all_buckets=True)
     jobs = []
     for u in universes:
         for ub in with_buckets(u, rnd, 3 if tier == "quick" else 9):
